@@ -113,6 +113,16 @@ func work(w *mon.W) {
 				}
 				st.mu.Unlock()
 			}
+			if strings.HasPrefix(string(ctx.Request.RequestURI()), "/viabody") {
+				// the streamed body is consumed through the buffered accessor
+				b, err := ctx.Request.BodyE()
+				st.mu.Lock()
+				st.got, st.gotErr = append([]byte(nil), b...), err
+				if err == nil {
+					st.gotErr = io.EOF
+				}
+				st.mu.Unlock()
+			}
 			if strings.HasPrefix(string(ctx.Request.RequestURI()), "/mp") {
 				// the body is consumed through the multipart API instead of raw reads
 				form, err := ctx.MultipartForm()
@@ -207,6 +217,11 @@ func work(w *mon.W) {
 	// next request
 	noPre := rig.NewEngine(rig.Options(func(o *config.Options) { o.StreamRequestBody = true; o.DisablePreParseMultipartForm = true }), func(e *route.Engine) { e.NoRoute(handler(st)) })
 	w.Cases("multipart", uint64(w.Pick(3000, 60000)), func(c *mon.Case) { multipartCase(w, c, e, noPre, st) })
+	// stall-resume: the peer stalls past the read timeout in the middle of a body (one
+	// timeout error on the connection) and then sends the rest, followed by another request.
+	// The handler (raw stream reads, or the buffered Body accessor) may see a prefix and a
+	// non-EOF error; what arrives late must be drained as body or the connection closed.
+	w.Cases("stall-resume", uint64(w.Pick(3000, 60000)), func(c *mon.Case) { stallResume(w, c, e, st) })
 	// after-abort: first a connection whose peer vanishes in the middle of a streamed body
 	// that the handler read only partly (draining it fails), then — on a new connection of
 	// the same engine, which recycles the pooled stream objects — an ordinary case
@@ -236,6 +251,112 @@ func work(w *mon.W) {
 		}
 		oneConn(w, c, e, st, nil, nil)
 	})
+}
+
+func stallResume(w *mon.W, c *mon.Case, e *route.Engine, st *state) {
+	r := c.R
+	id := c.G*1000 + uint64(r.Intn(1000))
+	L := r.Int(100, 5000, 9000, 9000, 20000, 70000)
+	chunked := r.Chance(3)
+	viaBody := r.Bool()
+	body := wire.PosBody(int(id%50), L)
+	// the tail of the body reads like a request (it is body all the same)
+	stallAt := 1 + r.Intn(L-1)
+	if L > 8300 && r.Bool() {
+		stallAt = 8192 + r.Intn(L-8192)
+	}
+	sm := fmt.Sprintf("GET /smuggled-%d HTTP/1.1\r\nHost: x\r\n\r\n", id)
+	if stallAt+len(sm) <= L {
+		copy(body[stallAt:], sm)
+	}
+	path := fmt.Sprintf("/body-%d", id)
+	if viaBody {
+		path = fmt.Sprintf("/viabody-%d", id)
+	}
+	var wb bytes.Buffer
+	bodyStart := 0
+	if chunked {
+		fmt.Fprintf(&wb, "POST %s HTTP/1.1\r\nHost: x\r\nTransfer-Encoding: chunked\r\n\r\n", path)
+		bodyStart = wb.Len()
+		fmt.Fprintf(&wb, "%x\r\n", L)
+		bodyStart = wb.Len()
+		wb.Write(body)
+		wb.WriteString("\r\n0\r\n\r\n")
+	} else {
+		fmt.Fprintf(&wb, "POST %s HTTP/1.1\r\nHost: x\r\nContent-Length: %d\r\n\r\n", path, L)
+		bodyStart = wb.Len()
+		wb.Write(body)
+	}
+	reqWire := wb.Bytes()
+	probe := fmt.Sprintf("GET /probe-%d HTTP/1.1\r\nHost: x\r\n\r\n", id)
+	stream := append(append([]byte{}, reqWire...), probe...)
+	frags, policy := wire.FragSchedule(r, stream, []int{len(reqWire)})
+	buf := r.Int(4096, 4096, 100, 8192)
+	st.mu.Lock()
+	st.cur, st.got, st.gotErr, st.paths, st.done, st.hasDone = plan{stopAfter: -1, readSizes: []int{r.Int(7, 100, 4096, 32768), 1 + r.Intn(9000)}}, nil, nil, nil, nil, false
+	st.mu.Unlock()
+	c.Detail = func() interface{} {
+		return map[string]interface{}{"family": "stall-resume", "body_len": L, "chunked": chunked, "via_body_accessor": viaBody, "timeout_after_body_bytes": stallAt, "policy": policy, "buf": buf}
+	}
+	sc := sconn.New(frags, sconn.EOF)
+	sc.TimeoutAfterBytes = bodyStart + stallAt
+	res := rig.Serve(e, sc, buf, false, 15*time.Second)
+	w.Count("stall_resume_connections", 1)
+	if res.Hang {
+		c.Violate("hang", "Serve did not finish on a finite input\n%s", trunc(res.Stack, 2500))
+		return
+	}
+	if res.Panic != nil {
+		c.Violate(mon.PanicKey(res.Stack), "panic: %v\n%s", res.Panic, trunc(res.Stack, 2000))
+		return
+	}
+	st.mu.Lock()
+	got, gotErr, paths := st.got, st.gotErr, append([]string{}, st.paths...)
+	st.mu.Unlock()
+	handlerRan := false
+	np := 0
+	for _, p := range paths {
+		switch p {
+		case "POST " + path:
+			handlerRan = true
+		case fmt.Sprintf("GET /probe-%d", id):
+			np++
+		default:
+			key := "desync"
+			if strings.Contains(p, "/smuggled-") {
+				key = "smuggled-request"
+			}
+			c.Violate(key, "a handler ran for %q, which is not one of the requests sent (body bytes that arrived after a stall were interpreted as a request)", p)
+			return
+		}
+	}
+	if handlerRan {
+		switch {
+		case !bytes.HasPrefix(body, got):
+			c.Violate("stream-content", "bytes read (%d) are not a prefix of the body (err=%v)", len(got), gotErr)
+			return
+		case len(got) < len(body) && (gotErr == nil || gotErr == io.EOF) && !(viaBody && len(got) == 0):
+			c.Violate("stream-eof", "reading ended after %d of %d body bytes with %v although the peer only stalled and then sent the rest", len(got), len(body), gotErr)
+			return
+		}
+		if len(got) == len(body) {
+			w.Count("stall_resume_body_read_completely", 1)
+		} else {
+			w.Count("stall_resume_handler_saw_the_timeout", 1)
+		}
+	}
+	out := string(res.Out)
+	nresp := strings.Count(out, "HTTP/1.1 ")
+	switch {
+	case np == 1 && strings.HasSuffix(out, "ok:/probe-"+fmt.Sprint(id)):
+		w.Count("stall_resume_probe_served", 1)
+	case np == 0 && nresp <= 1:
+		w.Count("stall_resume_closed", 1)
+	default:
+		c.Violate("closed-but-more", "after the stalled request: probe served %d times, %d responses written: %q", np, nresp, trunc(out, 300))
+		return
+	}
+	w.Shape(mon.Hash64("stall-resume", L, chunked, viaBody, stallAt, policy, buf))
 }
 
 func multipartCase(w *mon.W, c *mon.Case, e, noPre *route.Engine, st *state) {
